@@ -206,7 +206,7 @@ class State:
 
 class SymEval:
     def __init__(self, ce: ConstEval, func: FuncInfo, bind: dict | None = None, override=None, unroll: int = 0,
-                 modenv: dict | None = None, selfname: str | None = None, uid_base: int = 0, frozen_fields=()):
+                 modenv: dict | None = None, selfname: str | None = None, uid_base: int = 0, frozen_fields=(), on_index=None):
         self.ce = ce
         self.func = func
         self.modenv = modenv if modenv is not None else ce.module_env(func.module)
@@ -216,6 +216,7 @@ class SymEval:
         self.effects: list[Effect] = []
         self.uid = uid_base
         self.frozen_fields = frozenset(frozen_fields)
+        self.on_index = on_index
         self._loops: list = []
         self._trys: list = []
         self._handler = None
@@ -647,6 +648,8 @@ class SymEval:
         if isinstance(e, ast.Subscript):
             base = self.expr(e.value, st)
             idx = self.slice_(e.slice, st)
+            if self.on_index is not None and idx[0] != "slicespec":
+                self.on_index(e, base, idx, st, tuple(self._trys), self._handler)
             return self.index(base, idx)
         if isinstance(e, ast.BinOp):
             return self.binop(_BIN[type(e.op)][0], self.expr(e.left, st), self.expr(e.right, st))
